@@ -302,6 +302,9 @@ def long_inputs(r, cap):
         out.append(("STYLE PATTERN " + " ".join(f"{i} {i}" for i in range(n)) + " END END", "flat:pattern-pairs", True))
         out.append(("MAP PROJECTION " + " ".join(f'"k{i}=v"' for i in range(n)) + " END END", "flat:projection-strings", True))
         out.append(("LAYER " + " ".join(f'CLASS NAME "c{i}" END' for i in range(n)) + " END", "flat:sibling-blocks", True))
+        out.append(("FEATURE " + " ".join(f"POINTS {i} {i} {i + 1} {i + 1} END" for i in range(n)) + " END", "flat:points-blocks-of-one-feature", True))
+        out.append(("LAYER " + " ".join(f"FEATURE POINTS {i} {i} END END" for i in range(n)) + " END", "flat:features", True))
+        out.append(("SYMBOL POINTS " + " ".join(f"{i} {i}" for i in range(n)) + " END END", "flat:symbol-points", True))
         out.append(("CLASS # c\n" * 1 + " ".join(f'STYLE SIZE {i} END # s{i}\n' for i in range(n)) + " END", "flat:sibling-blocks-with-comments", True))
     # the normalised form of such a chain, as dumps writes it: one more pair of parentheses per operand, nested to the left
     for n in ((100, 300) if "left-nested-expression-quadratic" in GATED else (100, 300, 1000, 3000)):
@@ -511,6 +514,14 @@ def _run(ctx):
                     res.violation("block-type-refused-at-root", {"category": "root-block+keyword", "text": text}, repr(out[1])[:200], None)
         for b in ("METADATA", "VALIDATION", "CONNECTIONOPTIONS", "SYMBOLSET"):
             J.judge(f"{b} END", "root-block-kv")
+        # empty inner blocks of every kind, as the first / only / later child of every root that can hold them (accepted or refused
+        # with a parse error - never something else, never a malformed result)
+        inner = ["PATTERN", "POINTS", "PROJECTION", "METADATA", "VALIDATION", "VALUES", "CONNECTIONOPTIONS"] + list(BLOCKS)
+        for root in BLOCKS:
+            for ib in inner:
+                for text in (f"{root} {ib} END END", f"{root}\n  NAME \"x\"\n  {ib.lower()}\n  end\nEND", f"{root} {ib} END {ib} END END",
+                             f"{root} {ib} END END {root} {ib} END END"):
+                    J.judge(text, "empty-inner-block")
     else:
         res.count("root_block_types_accepted", 0)
     n = ctx.n(80000, 1600000)
